@@ -436,6 +436,13 @@ class CtxAwareTransformer(NodeTransformer):
         """Removes a value the most recent context."""
         for ctx in reversed(self.contexts):
             if value in ctx:
+                if ctx is self.contexts[0]:
+                    # contexts[0] also holds dir(builtins): after ``del id``
+                    # of a session variable the builtin is visible again
+                    import builtins as _builtins
+
+                    if hasattr(_builtins, value):
+                        break
                 ctx.remove(value)
                 if ctx is self.contexts[1] and len(self.contexts) == 2:
                     # module level: the session's variable of that name is
